@@ -79,6 +79,11 @@ def run(R):
                     continue
                 q = f"parse {gen.hexb(text)} {rng.choice([fmt, 'unknown']) if fmt != 'git' else 'unknown'} -1"
                 preqs.append(q); pmeta[q] = (a, b)
+                if fmt in ("unified", "git") and b"\n \n" in text:
+                    # as 'diff --suppress-blank-empty' writes it: an unchanged line which is empty is given as an empty line (D86: also first in a hunk)
+                    t2 = text.replace(b"\n \n", b"\n\n").replace(b"\n \n", b"\n\n")
+                    q = f"parse {gen.hexb(t2)} {rng.choice([fmt, 'unknown']) if fmt != 'git' else 'unknown'} -1"
+                    preqs.append(q); pmeta[q] = (a, b)
     finally:
         P.close()
     qs, ri, rm = R.tie("T4-parse-producers", preqs)
